@@ -124,6 +124,8 @@ func runC16(c *fw.Case) {
 		if r.Intn(4) > 0 {
 			avp.VestingPools = append(avp.VestingPools, mkPool("extra", "Other", gen.BigAmount(r, 12)))
 		}
+		// the pools are listed in any order
+		r.Shuffle(len(avp.VestingPools), func(i, j int) { avp.VestingPools[i], avp.VestingPools[j] = avp.VestingPools[j], avp.VestingPools[i] })
 		if len(avp.VestingPools) > 0 {
 			avps = append(avps, avp)
 		}
@@ -168,7 +170,12 @@ func runC16(c *fw.Case) {
 	for i, a := range traceAddrs {
 		traces = append(traces, vesttypes.VestingAccountTrace{Id: uint64(i), Address: a})
 	}
-	vg := &vesttypes.GenesisState{Params: vesttypes.Params{Denom: vDenom}, VestingTypes: gts, AccountVestingPools: avps, VestingAccountTraces: traces, VestingAccountTraceCount: uint64(len(traces))}
+	// the legacy vesting denomination need not be the default one
+	vd := vDenom
+	if r.Intn(4) == 0 {
+		vd = "utok"
+	}
+	vg := &vesttypes.GenesisState{Params: vesttypes.Params{Denom: vd}, VestingTypes: gts, AccountVestingPools: avps, VestingAccountTraces: traces, VestingAccountTraceCount: uint64(len(traces))}
 	mc := gen.Minters(r, "uc4e", 28)
 	dk := newDistKeys()
 	sds := gen.SubDistributors(r, distOpts(dk, false))
@@ -298,7 +305,7 @@ func runC16(c *fw.Case) {
 		if !vs.HasKeyTable() {
 			vs = vs.WithKeyTable(vesttypes.ParamKeyTable())
 		}
-		vp := vesttypes.Params{Denom: vDenom}
+		vp := vesttypes.Params{Denom: vd}
 		vs.SetParamSet(ctx, &vp)
 		return nil
 	}()
@@ -365,7 +372,7 @@ func runC16(c *fw.Case) {
 	if postLocked.Cmp(totalLocked) != 0 {
 		c.ViolateD("C16/total-locked-changed", map[string]string{"before": totalLocked.String(), "after": postLocked.String()}, "total locked over all pools changed from %s to %s", totalLocked, postLocked)
 	}
-	modBal := app.BankKeeper.GetBalance(ctx, authtypes.NewModuleAddress(vesttypes.ModuleName), vDenom).Amount.BigInt()
+	modBal := app.BankKeeper.GetBalance(ctx, authtypes.NewModuleAddress(vesttypes.ModuleName), vd).Amount.BigInt()
 	if modBal.Cmp(postLocked) != 0 {
 		c.Violate("C16/module-balance-vs-pools", "after the upgrade the vesting module account holds %s but pools lock %s", modBal, postLocked)
 	}
@@ -468,6 +475,24 @@ func runC16(c *fw.Case) {
 		}
 		c.Count("upgrade_lineage_flags_checked", 1)
 	}
+	// ... and the pools it is documented to mark as genesis pools (when the split is applied:
+	// the renamed validators pool, the four new pools and the advisors pool, wherever listed)
+	if splitApplied {
+		for _, avp := range postAll {
+			if avp.Owner != v120.ValidatorsVestingPoolOwner {
+				continue
+			}
+			for _, p := range avp.VestingPools {
+				switch p.Name {
+				case "Validator round pool", "VC round pool", "Early-bird round pool", "Public round pool", "Strategic reserve short term round pool", "Advisors pool":
+					if !p.GenesisPool && !(p.Name == "VC round pool" && namesTaken) {
+						c.Violate("C17/upgrade-pool-flags", "after the upgrade pool %q of the hard-coded owner is not marked as genesis pool", p.Name)
+					}
+					c.Count("upgrade_pool_flags_checked", 1)
+				}
+			}
+		}
+	}
 	if got := app.CfevestingKeeper.GetVestingAccountTraceCount(ctx); got != uint64(len(traces)) {
 		c.Violate("C16/trace-count", "trace count %d after the upgrade, %d before", got, len(traces))
 	}
@@ -511,7 +536,7 @@ func runC16(c *fw.Case) {
 	if fmt.Sprint(toModelSubsStrings(dp.SubDistributors)) != fmt.Sprint(toModelSubsStrings(legacySds)) {
 		c.Violate("C16/distributor-params-changed", "migrated sub-distributors differ from the legacy ones")
 	}
-	if app.CfevestingKeeper.GetParams(ctx).Denom != vDenom {
+	if app.CfevestingKeeper.GetParams(ctx).Denom != vd {
 		c.Violate("C16/vesting-params-changed", "vesting denom after the upgrade: %q", app.CfevestingKeeper.GetParams(ctx).Denom)
 	}
 	ownerPools := 0
